@@ -519,6 +519,36 @@ def feed (s : Screen) (bs : List Byte) : Screen := bs.foldl put s
 
 end Screen
 
+/-! ### `sline_avail` / `sline_newdata` at the C widths
+
+`cap`, `len` are `unsigned int`, `sline_avail` returns `int`: `(int)(cap - len)`.
+For `cap - len ≥ 2^31` that is negative. -/
+
+/-- `(int)u` for a 32-bit unsigned value -/
+def toInt32 (u : Nat) : Int := if u % 4294967296 < 2147483648 then ((u % 4294967296 : Nat) : Int) else ((u % 4294967296 : Nat) : Int) - 4294967296
+
+/-- `sline_avail`: `(int)(cap - len)`, the subtraction in `unsigned int` -/
+def Sline.availC (s : Sline) : Int := toInt32 (s.cap + 4294967296 - s.len % 4294967296)
+
+/-- `sline_newdata(sl, data, len)` with every intermediate value at its C width:
+`avail = sline_avail(sl)` (an `int`), `avail - 1` (signed: overflows for
+`avail = INT_MIN`, flagged as a fault = undefined behaviour), clamp, negative → 0. -/
+def Sline.newdataC (s : Sline) (data : List Byte) (n : Int) : Sline × Int :=
+  let avail := s.availC
+  let ub := decide (avail = -2147483648)
+  let n := if n > avail - 1 then avail - 1 else n
+  let n := if n < 0 then 0 else n
+  let k := n.toNat
+  let m := if s.cursor ≠ s.len then mmove s.buf (s.cursor + k) s.cursor (s.len - s.cursor)
+           else (s.buf, false)
+  let w := mcpy m.1 s.cursor data 0 k
+  ({ s with buf := w.1, cursor := s.cursor + k, len := s.len + k,
+            fault := s.fault || m.2 || w.2 || ub || decide (s.len < s.cursor) }, n)
+
+/-- `igris::sline::newdata(const char *data, size_t sz)`: `::sline_newdata(&sl, data, sz)` converts the
+`size_t` to the `int` parameter -/
+def Sline.newdataSz (s : Sline) (data : List Byte) (sz : Nat) : Sline × Int := s.newdataC data (toInt32 sz)
+
 /-! ## round 3: the `int16_t` parameter, settings between keys, a W-column terminal -/
 
 /-- C conversion `char → int16_t` (`char` is signed on the platform): the value
